@@ -53,6 +53,15 @@ module Coq__1 = struct
 end
 include Coq__1
 
+(** val sub : nat -> nat -> nat **)
+
+let rec sub n0 m =
+  match n0 with
+  | O -> n0
+  | S k -> (match m with
+            | O -> n0
+            | S l -> sub k l)
+
 module Nat =
  struct
   (** val eqb : nat -> nat -> bool **)
@@ -65,6 +74,45 @@ module Nat =
     | S n' -> (match m with
                | O -> false
                | S m' -> eqb n' m')
+
+  (** val leb : nat -> nat -> bool **)
+
+  let rec leb n0 m =
+    match n0 with
+    | O -> true
+    | S n' -> (match m with
+               | O -> false
+               | S m' -> leb n' m')
+
+  (** val ltb : nat -> nat -> bool **)
+
+  let ltb n0 m =
+    leb (S n0) m
+
+  (** val max : nat -> nat -> nat **)
+
+  let rec max n0 m =
+    match n0 with
+    | O -> m
+    | S n' -> (match m with
+               | O -> n0
+               | S m' -> S (max n' m'))
+
+  (** val divmod : nat -> nat -> nat -> nat -> nat * nat **)
+
+  let rec divmod x y q u =
+    match x with
+    | O -> (q, u)
+    | S x' ->
+      (match u with
+       | O -> divmod x' y (S q) y
+       | S u' -> divmod x' y q u')
+
+  (** val div : nat -> nat -> nat **)
+
+  let div x y = match y with
+  | O -> y
+  | S y' -> fst (divmod x y' O y')
  end
 
 (** val nth : nat -> 'a1 list -> 'a1 -> 'a1 **)
@@ -78,6 +126,16 @@ let rec nth n0 l default =
             | [] -> default
             | _ :: t -> nth m t default)
 
+(** val nth_error : 'a1 list -> nat -> 'a1 option **)
+
+let rec nth_error l = function
+| O -> (match l with
+        | [] -> None
+        | x :: _ -> Some x)
+| S n1 -> (match l with
+           | [] -> None
+           | _ :: l0 -> nth_error l0 n1)
+
 (** val rev : 'a1 list -> 'a1 list **)
 
 let rec rev = function
@@ -90,6 +148,31 @@ let rec rev_append l l' =
   match l with
   | [] -> l'
   | a :: l0 -> rev_append l0 (a :: l')
+
+(** val map : ('a1 -> 'a2) -> 'a1 list -> 'a2 list **)
+
+let rec map f = function
+| [] -> []
+| a :: t -> (f a) :: (map f t)
+
+(** val flat_map : ('a1 -> 'a2 list) -> 'a1 list -> 'a2 list **)
+
+let rec flat_map f = function
+| [] -> []
+| x :: t -> app (f x) (flat_map f t)
+
+(** val fold_left : ('a1 -> 'a2 -> 'a1) -> 'a2 list -> 'a1 -> 'a1 **)
+
+let rec fold_left f l a0 =
+  match l with
+  | [] -> a0
+  | b :: t -> fold_left f t (f a0 b)
+
+(** val existsb : ('a1 -> bool) -> 'a1 list -> bool **)
+
+let rec existsb f = function
+| [] -> false
+| a :: l0 -> (||) (f a) (existsb f l0)
 
 (** val firstn : nat -> 'a1 list -> 'a1 list **)
 
@@ -108,6 +191,12 @@ let rec skipn n0 l =
   | S n1 -> (match l with
              | [] -> []
              | _ :: l0 -> skipn n1 l0)
+
+(** val repeat : 'a1 -> nat -> 'a1 list **)
+
+let rec repeat x = function
+| O -> []
+| S k -> x :: (repeat x k)
 
 type positive =
 | XI of positive
@@ -302,6 +391,38 @@ module Coq_Pos =
              | XH -> true
              | _ -> false)
 
+  (** val coq_Nsucc_double : n -> n **)
+
+  let coq_Nsucc_double = function
+  | N0 -> Npos XH
+  | Npos p -> Npos (XI p)
+
+  (** val coq_Ndouble : n -> n **)
+
+  let coq_Ndouble = function
+  | N0 -> N0
+  | Npos p -> Npos (XO p)
+
+  (** val coq_lxor : positive -> positive -> n **)
+
+  let rec coq_lxor p q =
+    match p with
+    | XI p0 ->
+      (match q with
+       | XI q0 -> coq_Ndouble (coq_lxor p0 q0)
+       | XO q0 -> coq_Nsucc_double (coq_lxor p0 q0)
+       | XH -> Npos (XO p0))
+    | XO p0 ->
+      (match q with
+       | XI q0 -> coq_Nsucc_double (coq_lxor p0 q0)
+       | XO q0 -> coq_Ndouble (coq_lxor p0 q0)
+       | XH -> Npos (XI p0))
+    | XH ->
+      (match q with
+       | XI q0 -> Npos (XO q0)
+       | XO q0 -> Npos (XI q0)
+       | XH -> N0)
+
   (** val iter_op : ('a1 -> 'a1 -> 'a1) -> positive -> 'a1 -> 'a1 **)
 
   let rec iter_op op p a =
@@ -403,6 +524,35 @@ module N =
     | Lt -> true
     | _ -> false
 
+  (** val min : n -> n -> n **)
+
+  let min n0 n' =
+    match compare n0 n' with
+    | Gt -> n'
+    | _ -> n0
+
+  (** val div2 : n -> n **)
+
+  let div2 = function
+  | N0 -> N0
+  | Npos p0 -> (match p0 with
+                | XI p -> Npos p
+                | XO p -> Npos p
+                | XH -> N0)
+
+  (** val even : n -> bool **)
+
+  let even = function
+  | N0 -> true
+  | Npos p -> (match p with
+               | XO _ -> true
+               | _ -> false)
+
+  (** val odd : n -> bool **)
+
+  let odd n0 =
+    negb (even n0)
+
   (** val pow : n -> n -> n **)
 
   let pow n0 = function
@@ -448,6 +598,15 @@ module N =
 
   let modulo a b =
     snd (div_eucl a b)
+
+  (** val coq_lxor : n -> n -> n **)
+
+  let coq_lxor n0 m =
+    match n0 with
+    | N0 -> m
+    | Npos p -> (match m with
+                 | N0 -> n0
+                 | Npos q -> Coq_Pos.coq_lxor p q)
 
   (** val to_nat : n -> nat **)
 
@@ -705,6 +864,16 @@ type bytes = n list
 let len bs =
   N.of_nat (length bs)
 
+(** val zeros : nat -> bytes **)
+
+let zeros n0 =
+  repeat N0 n0
+
+(** val sub0 : nat -> nat -> bytes -> bytes **)
+
+let sub0 off n0 bs =
+  firstn n0 (skipn off bs)
+
 (** val le32 : n -> bytes **)
 
 let le32 v =
@@ -855,6 +1024,22 @@ let z_to_u w z0 =
 
 let u_to_z w half u =
   if N.ltb u half then Z.of_N u else Z.sub (Z.of_N u) (Z.of_N w)
+
+(** val overwrite : bytes -> nat -> bytes -> bytes **)
+
+let rec overwrite bs off w =
+  match off with
+  | O -> app w (skipn (length w) bs)
+  | S o ->
+    (match bs with
+     | [] -> N0 :: (overwrite [] o w)
+     | b :: r -> b :: (overwrite r o w))
+
+(** val all_zero : bytes -> bool **)
+
+let rec all_zero = function
+| [] -> true
+| b :: r -> (&&) (N.eqb b N0) (all_zero r)
 
 type str = n list
 
@@ -1409,6 +1594,1142 @@ let run_dec = function
          | None -> s_bad)
       | _ :: _ -> s_bad))
 
+(** val maxEntrySize : n **)
+
+let maxEntrySize =
+  Npos (XO (XO (XO (XO (XO (XO (XO (XO (XO (XO (XO (XO (XO (XO (XO (XO (XO
+    (XO (XO (XO (XO (XO (XO (XO (XO (XO XH))))))))))))))))))))))))))
+
+(** val frameInvalid : n **)
+
+let frameInvalid =
+  N0
+
+(** val frameEntry : n **)
+
+let frameEntry =
+  Npos XH
+
+(** val frameIndex : n **)
+
+let frameIndex =
+  Npos (XO XH)
+
+(** val frameCommit : n **)
+
+let frameCommit =
+  Npos (XI XH)
+
+(** val file_header_len : n **)
+
+let file_header_len =
+  Npos (XO (XO (XO (XO (XO XH)))))
+
+(** val frame_header_len : n **)
+
+let frame_header_len =
+  Npos (XO (XO (XO XH)))
+
+(** val magic : n **)
+
+let magic =
+  Npos (XI (XO (XI (XI (XO (XO (XO (XO (XI (XI (XO (XI (XO (XI (XI (XO (XI
+    (XI (XO (XI (XO (XI (XI (XI (XO (XO (XO (XI (XI (XO
+    XH))))))))))))))))))))))))))))))
+
+(** val min_buf_size : n **)
+
+let min_buf_size =
+  Npos (XO (XO (XO (XO (XO (XO (XO (XO (XO (XO (XO (XO (XO (XO (XO (XO
+    XH))))))))))))))))
+
+type seginfo = { si_id : n; si_base : n; si_min : n; si_max : n;
+                 si_codec : n; si_index_start : n; si_sealed : bool;
+                 si_size_limit : n }
+
+(** val file_header : seginfo -> bytes **)
+
+let file_header info =
+  app (le32 magic)
+    (app (N0 :: (N0 :: (N0 :: (N0 :: []))))
+      (app (le64 info.si_base) (app (le64 info.si_id) (le64 info.si_codec))))
+
+(** val read_file_header : bytes -> ((n * n) * n) option **)
+
+let read_file_header buf =
+  if N.ltb (len buf) file_header_len
+  then None
+  else if negb (N.eqb (rd64 buf) magic)
+       then None
+       else Some (((rd64 (skipn (S (S (S (S (S (S (S (S O)))))))) buf)),
+              (rd64
+                (skipn (S (S (S (S (S (S (S (S (S (S (S (S (S (S (S (S
+                  O)))))))))))))))) buf))),
+              (rd64
+                (skipn (S (S (S (S (S (S (S (S (S (S (S (S (S (S (S (S (S (S
+                  (S (S (S (S (S (S O)))))))))))))))))))))))) buf)))
+
+(** val validate_file_header : ((n * n) * n) -> seginfo -> bool **)
+
+let validate_file_header got info =
+  let (p, c) = got in
+  let (b, i) = p in
+  (&&) ((&&) (N.eqb i info.si_id) (N.eqb b info.si_base))
+    (N.eqb c info.si_codec)
+
+(** val pad_len : n -> n **)
+
+let pad_len n0 =
+  N.modulo
+    (N.sub (Npos (XO (XO (XO XH)))) (N.modulo n0 (Npos (XO (XO (XO XH))))))
+    (Npos (XO (XO (XO XH))))
+
+(** val enc_frame_size : n -> n **)
+
+let enc_frame_size n0 =
+  N.add (N.add (Npos (XO (XO (XO XH)))) n0) (pad_len n0)
+
+(** val index_frame_size : n -> n **)
+
+let index_frame_size num =
+  if N.eqb num N0 then N0 else enc_frame_size (N.mul num (Npos (XO (XO XH))))
+
+(** val frame_header : n -> n -> bytes **)
+
+let frame_header typ v =
+  app (typ :: (N0 :: (N0 :: (N0 :: [])))) (le32 v)
+
+(** val enc_frame : n -> bytes -> bytes **)
+
+let enc_frame typ payload =
+  app (frame_header typ (len payload))
+    (app payload (zeros (N.to_nat (pad_len (len payload)))))
+
+(** val commit_frame : n -> bytes **)
+
+let commit_frame crc =
+  frame_header frameCommit crc
+
+(** val index_payload : n list -> bytes **)
+
+let index_payload offs =
+  flat_map le32 offs
+
+(** val index_frame : n list -> bytes **)
+
+let index_frame offs =
+  app (frame_header frameIndex (N.mul (Npos (XO (XO XH))) (len offs)))
+    (app (index_payload offs) (if N.odd (len offs) then le32 N0 else []))
+
+type fhdr =
+| FH of n * n
+| FHZero
+| FHCorrupt
+| FHShort
+
+(** val read_frame_header : bytes -> fhdr **)
+
+let read_frame_header buf =
+  if N.ltb (len buf) frame_header_len
+  then FHShort
+  else let t = nth0 O buf in
+       if N.eqb t frameInvalid
+       then if all_zero (firstn (S (S (S (S (S (S (S (S O)))))))) buf)
+            then FHZero
+            else FHCorrupt
+       else if (||) ((||) (N.eqb t frameEntry) (N.eqb t frameIndex))
+                 (N.eqb t frameCommit)
+            then FH (t, (rd32 (skipn (S (S (S (S O)))) buf)))
+            else FHCorrupt
+
+(** val fh_len : n -> n -> n **)
+
+let fh_len typ v =
+  if N.eqb typ frameCommit then N0 else v
+
+(** val crc_poly : n **)
+
+let crc_poly =
+  Npos (XO (XO (XO (XI (XI (XI (XI (XO (XI (XI (XO (XI (XI (XI (XO (XO (XO
+    (XI (XI (XO (XI (XI (XI (XI (XO (XI (XO (XO (XO (XO (XO
+    XH)))))))))))))))))))))))))))))))
+
+(** val crc_mask : n **)
+
+let crc_mask =
+  Npos (XI (XI (XI (XI (XI (XI (XI (XI (XI (XI (XI (XI (XI (XI (XI (XI (XI
+    (XI (XI (XI (XI (XI (XI (XI (XI (XI (XI (XI (XI (XI (XI
+    XH)))))))))))))))))))))))))))))))
+
+(** val crc_shift1 : n -> n **)
+
+let crc_shift1 c =
+  if N.odd c then N.coq_lxor (N.div2 c) crc_poly else N.div2 c
+
+(** val crc_byte : n -> n -> n **)
+
+let crc_byte c b =
+  crc_shift1
+    (crc_shift1
+      (crc_shift1
+        (crc_shift1
+          (crc_shift1 (crc_shift1 (crc_shift1 (crc_shift1 (N.coq_lxor c b))))))))
+
+(** val crc_raw : n -> bytes -> n **)
+
+let crc_raw c bs =
+  fold_left crc_byte bs c
+
+(** val crc_update : n -> bytes -> n **)
+
+let crc_update crc bs =
+  N.coq_lxor (crc_raw (N.coq_lxor crc crc_mask) bs) crc_mask
+
+(** val crc32c : bytes -> n **)
+
+let crc32c bs =
+  crc_update N0 bs
+
+type waction =
+| WWrite of n * bytes
+| WSync
+
+type wres =
+| WOk
+| WErrSealed
+| WErrTooBig
+| WErrNonMono
+| WErrShortBuf
+| WErrIO
+
+type wfault =
+| FNone
+| FWrite
+| FSync
+
+type wstate = { w_info : seginfo; w_buf : bytes; w_crc : n; w_off : n;
+                w_index_start : n; w_offsets : n list; w_commit_idx : 
+                n }
+
+(** val set_buf : wstate -> bytes -> n -> n list -> wstate **)
+
+let set_buf w buf crc offs =
+  { w_info = w.w_info; w_buf = buf; w_crc = crc; w_off = w.w_off;
+    w_index_start = w.w_index_start; w_offsets = offs; w_commit_idx =
+    w.w_commit_idx }
+
+(** val init_empty : seginfo -> wstate **)
+
+let init_empty info =
+  let h = file_header info in
+  { w_info = info; w_buf = h; w_crc = (crc32c h); w_off = N0; w_index_start =
+  N0; w_offsets = []; w_commit_idx = N0 }
+
+type entry = n * bytes
+
+(** val append_entry : wstate -> entry -> wstate option **)
+
+let append_entry w e =
+  if N.eqb (fst e) (N.add w.w_info.si_base (len w.w_offsets))
+  then let fr = enc_frame frameEntry (snd e) in
+       Some
+       (set_buf w (app w.w_buf fr) (crc_update w.w_crc fr)
+         (app w.w_offsets
+           ((N.modulo (N.add w.w_off (len w.w_buf)) two32) :: [])))
+  else None
+
+(** val append_entries : wstate -> entry list -> wstate option **)
+
+let rec append_entries w = function
+| [] -> Some w
+| e :: r ->
+  (match append_entry w e with
+   | Some w' -> append_entries w' r
+   | None -> None)
+
+(** val append_index : wstate -> wstate option **)
+
+let append_index w =
+  match w.w_offsets with
+  | [] -> None
+  | _ :: _ ->
+    let fr = index_frame w.w_offsets in
+    Some { w_info = w.w_info; w_buf = (app w.w_buf fr); w_crc =
+    (crc_update w.w_crc fr); w_off = w.w_off; w_index_start =
+    (N.add (N.add w.w_off (len w.w_buf)) (Npos (XO (XO (XO XH)))));
+    w_offsets = w.w_offsets; w_commit_idx = w.w_commit_idx }
+
+(** val commit_idx_of : wstate -> n **)
+
+let commit_idx_of w =
+  match w.w_offsets with
+  | [] -> N0
+  | _ :: _ -> N.sub (N.add w.w_info.si_base (len w.w_offsets)) (Npos XH)
+
+(** val append_commit : wstate -> wfault -> wstate option * waction list **)
+
+let append_commit w f =
+  let buf = app w.w_buf (commit_frame w.w_crc) in
+  (match f with
+   | FNone ->
+     let w' = { w_info = w.w_info; w_buf = []; w_crc = N0; w_off =
+       (N.modulo (N.add w.w_off (len buf)) two32); w_index_start =
+       w.w_index_start; w_offsets = w.w_offsets; w_commit_idx =
+       w.w_commit_idx }
+     in
+     ((Some { w_info = w'.w_info; w_buf = []; w_crc = N0; w_off = w'.w_off;
+     w_index_start = w'.w_index_start; w_offsets = w'.w_offsets;
+     w_commit_idx = (commit_idx_of w') }), ((WWrite (w.w_off,
+     buf)) :: (WSync :: [])))
+   | FWrite -> (None, [])
+   | FSync -> (None, ((WWrite (w.w_off, buf)) :: (WSync :: []))))
+
+(** val needs_seal : wstate -> bool **)
+
+let needs_seal w =
+  N.ltb w.w_info.si_size_limit
+    (N.modulo
+      (N.add w.w_off
+        (N.modulo (N.add (len w.w_buf) (index_frame_size (len w.w_offsets)))
+          two32)) two32)
+
+(** val too_big : entry list -> bool **)
+
+let too_big es =
+  existsb (fun e -> N.ltb maxEntrySize (len (snd e))) es
+
+(** val append :
+    wstate -> entry list -> wfault -> (wres * wstate) * waction list **)
+
+let append w es f =
+  match es with
+  | [] -> ((WOk, w), [])
+  | _ :: _ ->
+    if N.ltb N0 w.w_index_start
+    then ((WErrSealed, w), [])
+    else if too_big es
+         then ((WErrTooBig, w), [])
+         else (match append_entries w es with
+               | Some w1 ->
+                 let w2 = if needs_seal w1 then append_index w1 else Some w1
+                 in
+                 (match w2 with
+                  | Some w3 ->
+                    let (o, acts) = append_commit w3 f in
+                    (match o with
+                     | Some w4 -> ((WOk, w4), acts)
+                     | None -> ((WErrIO, w), acts))
+                  | None -> ((WErrShortBuf, w), []))
+               | None -> ((WErrNonMono, w), []))
+
+(** val force_seal : wstate -> wfault -> (wres * wstate) * waction list **)
+
+let force_seal w f =
+  if N.ltb N0 w.w_index_start
+  then ((WOk, w), [])
+  else (match append_index w with
+        | Some w1 ->
+          let (o, acts) = append_commit w1 f in
+          (match o with
+           | Some w2 -> ((WOk, w2), acts)
+           | None -> ((WErrIO, w), acts))
+        | None -> ((WErrShortBuf, w), []))
+
+(** val sealed : wstate -> bool **)
+
+let sealed w =
+  N.ltb N0 w.w_index_start
+
+(** val apply_waction : bytes -> waction -> bytes **)
+
+let apply_waction file = function
+| WWrite (off, bs) -> overwrite file (N.to_nat off) bs
+| WSync -> file
+
+(** val apply_wactions : bytes -> waction list -> bytes **)
+
+let apply_wactions file acts =
+  fold_left apply_waction acts file
+
+(** val read_at : bytes -> n -> n -> bytes **)
+
+let read_at f off n0 =
+  if N.leb (len f) off
+  then []
+  else sub0 (N.to_nat off) (N.to_nat (N.min n0 (N.sub (len f) off))) f
+
+type frame_ev = { fe_typ : n; fe_val : n; fe_off : n }
+
+(** val scan_from : nat -> bytes -> n -> frame_ev list **)
+
+let rec scan_from fuel f off =
+  match fuel with
+  | O -> []
+  | S fuel' ->
+    (match read_frame_header (read_at f off (Npos (XO (XO (XO XH))))) with
+     | FH (typ, v) ->
+       { fe_typ = typ; fe_val = v; fe_off =
+         off } :: (scan_from fuel' f
+                    (N.add off (enc_frame_size (fh_len typ v))))
+     | _ -> [])
+
+(** val scan_fuel : bytes -> nat **)
+
+let scan_fuel f =
+  S (Nat.div (length f) (S (S (S (S (S (S (S (S O)))))))))
+
+(** val scan : bytes -> frame_ev list **)
+
+let scan f =
+  scan_from (scan_fuel f) f (Npos (XO (XO (XO (XO (XO XH))))))
+
+(** val scanned_header : bytes -> (n * n) * n **)
+
+let scanned_header f =
+  match read_file_header
+          (firstn (S (S (S (S (S (S (S (S (S (S (S (S (S (S (S (S (S (S (S (S
+            (S (S (S (S (S (S (S (S (S (S (S (S
+            O))))))))))))))))))))))))))))))))
+            (app f
+              (zeros (S (S (S (S (S (S (S (S (S (S (S (S (S (S (S (S (S (S (S
+                (S (S (S (S (S (S (S (S (S (S (S (S (S
+                O))))))))))))))))))))))))))))))))))) with
+  | Some h -> h
+  | None -> ((N0, N0), N0)
+
+type commit_info = { c_crc : n; c_off : n; c_crc_start : n;
+                     c_offsets_len : nat; c_index_start : n }
+
+type rec_acc = { ra_offsets : n list; ra_pending : n;
+                 ra_prev : commit_info option; ra_final : commit_info option }
+
+(** val rec_step : rec_acc -> frame_ev -> rec_acc **)
+
+let rec_step a e =
+  if N.eqb e.fe_typ frameEntry
+  then { ra_offsets = (app a.ra_offsets ((N.modulo e.fe_off two32) :: []));
+         ra_pending = a.ra_pending; ra_prev = a.ra_prev; ra_final =
+         a.ra_final }
+  else if N.eqb e.fe_typ frameIndex
+       then { ra_offsets = a.ra_offsets; ra_pending =
+              (N.add e.fe_off (Npos (XO (XO (XO XH))))); ra_prev = a.ra_prev;
+              ra_final = a.ra_final }
+       else { ra_offsets = a.ra_offsets; ra_pending = N0; ra_prev =
+              a.ra_final; ra_final = (Some { c_crc = e.fe_val; c_off =
+              e.fe_off; c_crc_start =
+              (match a.ra_final with
+               | Some p -> N.add p.c_off (Npos (XO (XO (XO XH))))
+               | None -> N0); c_offsets_len = (length a.ra_offsets);
+              c_index_start = a.ra_pending }) }
+
+(** val rec_fold : frame_ev list -> rec_acc **)
+
+let rec_fold evs =
+  fold_left rec_step evs { ra_offsets = []; ra_pending = N0; ra_prev = None;
+    ra_final = None }
+
+(** val recovered : seginfo -> n -> n -> n list -> wstate **)
+
+let recovered info off istart offs =
+  let w = { w_info = info; w_buf = []; w_crc = N0; w_off =
+    (N.modulo off two32); w_index_start = istart; w_offsets = offs;
+    w_commit_idx = N0 }
+  in
+  { w_info = info; w_buf = []; w_crc = N0; w_off = w.w_off; w_index_start =
+  istart; w_offsets = offs; w_commit_idx = (commit_idx_of w) }
+
+(** val recover_state : seginfo -> bytes -> wstate option **)
+
+let recover_state info f =
+  let a = rec_fold (scan f) in
+  let hdr_ok = validate_file_header (scanned_header f) info in
+  (match a.ra_final with
+   | Some fc ->
+     if Nat.ltb fc.c_offsets_len (length a.ra_offsets)
+     then if hdr_ok
+          then Some
+                 (recovered info (N.add fc.c_off (Npos (XO (XO (XO XH)))))
+                   fc.c_index_start (firstn fc.c_offsets_len a.ra_offsets))
+          else None
+     else let batch = read_at f fc.c_crc_start (N.sub fc.c_off fc.c_crc_start)
+          in
+          if N.eqb (crc32c batch) fc.c_crc
+          then if hdr_ok
+               then Some
+                      (recovered info
+                        (N.add fc.c_off (Npos (XO (XO (XO XH)))))
+                        fc.c_index_start a.ra_offsets)
+               else None
+          else (match a.ra_prev with
+                | Some pc ->
+                  if hdr_ok
+                  then Some
+                         (recovered info
+                           (N.add pc.c_off (Npos (XO (XO (XO XH)))))
+                           pc.c_index_start
+                           (firstn pc.c_offsets_len a.ra_offsets))
+                  else None
+                | None -> Some (init_empty info))
+   | None -> Some (init_empty info))
+
+(** val scrub_chunks : nat -> bytes -> n -> waction list **)
+
+let rec scrub_chunks fuel f off =
+  match fuel with
+  | O -> []
+  | S fuel' ->
+    let c = read_at f off min_buf_size in
+    (match c with
+     | [] -> []
+     | _ :: _ ->
+       app
+         (if all_zero c then [] else (WWrite (off, (zeros (length c)))) :: [])
+         (scrub_chunks fuel' f (N.add off (len c))))
+
+(** val scrub_actions : bytes -> n -> waction list **)
+
+let scrub_actions f off =
+  let ws = scrub_chunks (S (N.to_nat (N.div (len f) min_buf_size))) f off in
+  (match ws with
+   | [] -> []
+   | _ :: _ -> app ws (WSync :: []))
+
+(** val recover_tail : seginfo -> bytes -> (wstate * waction list) option **)
+
+let recover_tail info f =
+  match recover_state info f with
+  | Some w -> Some (w, (scrub_actions f w.w_off))
+  | None -> None
+
+type rres =
+| ROk of bytes
+| RNotFound
+| RCorrupt
+| RErr
+
+(** val read_frame : bytes -> n -> rres * n **)
+
+let read_frame f off =
+  let buf = read_at f off min_buf_size in
+  if N.ltb (len buf) (Npos (XO (XO (XO XH))))
+  then (RErr, N0)
+  else (match read_frame_header buf with
+        | FH (typ, v) ->
+          let l = fh_len typ v in
+          if N.leb (N.add (Npos (XO (XO (XO XH)))) l) (len buf)
+          then ((ROk
+                 (sub0 (S (S (S (S (S (S (S (S O)))))))) (N.to_nat l) buf)),
+                 N0)
+          else if N.ltb maxEntrySize l
+               then (RCorrupt, N0)
+               else let p = read_at f (N.add off (Npos (XO (XO (XO XH))))) l
+                    in
+                    if N.ltb (len p) l then (RErr, l) else ((ROk p), l)
+        | FHZero -> ((ROk []), N0)
+        | FHCorrupt -> (RCorrupt, N0)
+        | FHShort -> (RErr, N0))
+
+(** val tail_offset : wstate -> n -> n option **)
+
+let tail_offset w idx =
+  if (||) ((||) (N.ltb idx w.w_info.si_base) (N.ltb idx w.w_info.si_min))
+       (N.ltb w.w_commit_idx idx)
+  then None
+  else nth_error w.w_offsets (N.to_nat (N.sub idx w.w_info.si_base))
+
+(** val tail_get : wstate -> bytes -> n -> rres **)
+
+let tail_get w f idx =
+  match tail_offset w idx with
+  | Some off -> fst (read_frame f off)
+  | None -> RNotFound
+
+(** val sealed_get : seginfo -> bytes -> n -> rres **)
+
+let sealed_get info f idx =
+  if N.eqb info.si_index_start N0
+  then RErr
+  else if (||) (N.ltb idx info.si_min)
+            ((&&) (N.ltb N0 info.si_max) (N.ltb info.si_max idx))
+       then RNotFound
+       else let bo =
+              N.modulo
+                (N.add info.si_index_start
+                  (N.mul (N.modulo (N.sub idx info.si_base) two64) (Npos (XO
+                    (XO XH))))) two64
+            in
+            let b4 = read_at f bo (Npos (XO (XO XH))) in
+            if N.ltb (len b4) (Npos (XO (XO XH)))
+            then RErr
+            else fst (read_frame f (rd32 b4))
+
+(** val open_sealed : seginfo -> bytes -> bool **)
+
+let open_sealed info f =
+  if N.ltb (len f) (Npos (XO (XO (XO (XO (XO XH))))))
+  then false
+  else (match read_file_header
+                (firstn (S (S (S (S (S (S (S (S (S (S (S (S (S (S (S (S (S (S
+                  (S (S (S (S (S (S (S (S (S (S (S (S (S (S
+                  O)))))))))))))))))))))))))))))))) f) with
+        | Some h -> validate_file_header h info
+        | None -> false)
+
+type dump_res =
+| DumpOk of (n * bytes) list
+| DumpErr of (n * bytes) list
+
+(** val dump_batch :
+    bytes -> ((n * n) * n) list -> (n * bytes) list -> (n * bytes) list
+    option * (n * bytes) list **)
+
+let rec dump_batch f batch acc =
+  match batch with
+  | [] -> ((Some acc), acc)
+  | p :: r ->
+    let (p0, l) = p in
+    let (idx, off) = p0 in
+    if N.ltb maxEntrySize l
+    then (None, acc)
+    else let p1 = read_at f (N.add off (Npos (XO (XO (XO XH))))) l in
+         if N.ltb (len p1) l
+         then (None, acc)
+         else dump_batch f r (app acc ((idx, p1) :: []))
+
+(** val dump_go :
+    bytes -> frame_ev list -> n -> n -> n -> ((n * n) * n) list ->
+    (n * bytes) list -> dump_res **)
+
+let rec dump_go f evs idx after before batch acc =
+  match evs with
+  | [] -> DumpOk acc
+  | e :: r ->
+    if N.eqb e.fe_typ frameCommit
+    then let (o, acc') = dump_batch f batch acc in
+         (match o with
+          | Some acc'0 -> dump_go f r idx after before [] acc'0
+          | None -> DumpErr acc')
+    else if negb (N.eqb e.fe_typ frameEntry)
+         then dump_go f r idx after before batch acc
+         else if N.leb idx after
+              then dump_go f r (N.add idx (Npos XH)) after before batch acc
+              else if (&&) (N.ltb N0 before) (N.leb before idx)
+                   then DumpOk acc
+                   else dump_go f r (N.add idx (Npos XH)) after before
+                          (app batch (((idx, e.fe_off), e.fe_val) :: [])) acc
+
+(** val dump_segment : bytes -> n -> n -> n -> dump_res **)
+
+let dump_segment f base after before =
+  dump_go f (scan f) base after before [] []
+
+type smode =
+| MTail
+| MSealed of seginfo
+| MNone
+
+type sst = { s_info : seginfo; s_file : bytes; s_w : wstate; s_mode : 
+             smode; s_pre : bytes }
+
+(** val s_sealedk : str **)
+
+let s_sealedk =
+  (Npos (XI (XI (XO (XO (XI (XI XH))))))) :: ((Npos (XI (XO (XI (XO (XO (XI
+    XH))))))) :: ((Npos (XI (XO (XO (XO (XO (XI XH))))))) :: ((Npos (XO (XO
+    (XI (XI (XO (XI XH))))))) :: ((Npos (XI (XO (XI (XO (XO (XI
+    XH))))))) :: ((Npos (XO (XO (XI (XO (XO (XI XH))))))) :: [])))))
+
+(** val s_toobig : str **)
+
+let s_toobig =
+  (Npos (XO (XO (XI (XO (XI (XI XH))))))) :: ((Npos (XI (XI (XI (XI (XO (XI
+    XH))))))) :: ((Npos (XI (XI (XI (XI (XO (XI XH))))))) :: ((Npos (XO (XI
+    (XO (XO (XO (XI XH))))))) :: ((Npos (XI (XO (XO (XI (XO (XI
+    XH))))))) :: ((Npos (XI (XI (XI (XO (XO (XI XH))))))) :: [])))))
+
+(** val s_nonmono : str **)
+
+let s_nonmono =
+  (Npos (XO (XI (XI (XI (XO (XI XH))))))) :: ((Npos (XI (XI (XI (XI (XO (XI
+    XH))))))) :: ((Npos (XO (XI (XI (XI (XO (XI XH))))))) :: ((Npos (XI (XO
+    (XI (XI (XO (XI XH))))))) :: ((Npos (XI (XI (XI (XI (XO (XI
+    XH))))))) :: ((Npos (XO (XI (XI (XI (XO (XI XH))))))) :: ((Npos (XI (XI
+    (XI (XI (XO (XI XH))))))) :: []))))))
+
+(** val s_nf : str **)
+
+let s_nf =
+  (Npos (XO (XI (XI (XI (XO (XI XH))))))) :: ((Npos (XO (XI (XI (XO (XO (XI
+    XH))))))) :: [])
+
+(** val s_corrupt : str **)
+
+let s_corrupt =
+  (Npos (XI (XI (XO (XO (XO (XI XH))))))) :: ((Npos (XI (XI (XI (XI (XO (XI
+    XH))))))) :: ((Npos (XO (XI (XO (XO (XI (XI XH))))))) :: ((Npos (XO (XI
+    (XO (XO (XI (XI XH))))))) :: ((Npos (XI (XO (XI (XO (XI (XI
+    XH))))))) :: ((Npos (XO (XO (XO (XO (XI (XI XH))))))) :: ((Npos (XO (XO
+    (XI (XO (XI (XI XH))))))) :: []))))))
+
+(** val colon : n **)
+
+let colon =
+  Npos (XO (XI (XO (XI (XI XH)))))
+
+(** val show_wres : wres -> str **)
+
+let show_wres = function
+| WOk -> s_ok
+| WErrSealed -> s_sealedk
+| WErrTooBig -> s_toobig
+| WErrNonMono -> s_nonmono
+| _ -> s_err
+
+(** val show_rres : rres -> str **)
+
+let show_rres = function
+| ROk p -> app s_ok (colon :: (bytes_to_hex p))
+| RNotFound -> s_nf
+| RCorrupt -> s_corrupt
+| RErr -> s_err
+
+(** val strip_zeros_rev : bytes -> bytes **)
+
+let rec strip_zeros_rev r = match r with
+| [] -> r
+| n0 :: t -> (match n0 with
+              | N0 -> strip_zeros_rev t
+              | Npos _ -> r)
+
+(** val strip_trailing_zeros : bytes -> bytes **)
+
+let strip_trailing_zeros bs =
+  rev_append (strip_zeros_rev (rev_append bs [])) []
+
+(** val parse_entries : nat -> str list -> (entry list * str list) option **)
+
+let rec parse_entries k ts =
+  match k with
+  | O -> Some ([], ts)
+  | S k' ->
+    (match ts with
+     | [] -> None
+     | i :: l ->
+       (match l with
+        | [] -> None
+        | p :: r ->
+          (match hex_to_N i with
+           | Some i0 ->
+             (match hex_to_bytes p with
+              | Some p0 ->
+                (match parse_entries k' r with
+                 | Some p1 ->
+                   let (es, rest) = p1 in Some (((i0, p0) :: es), rest)
+                 | None -> None)
+              | None -> None)
+           | None -> None)))
+
+(** val crash_mix : bytes -> bytes -> n -> nat -> bytes **)
+
+let rec crash_mix old new0 mask0 = function
+| O -> []
+| S f ->
+  (match old with
+   | [] ->
+     (match new0 with
+      | [] -> []
+      | _ :: _ ->
+        app
+          (if N.odd mask0
+           then firstn (S (S (S (S (S (S (S (S O)))))))) new0
+           else firstn (S (S (S (S (S (S (S (S O)))))))) old)
+          (crash_mix (skipn (S (S (S (S (S (S (S (S O)))))))) old)
+            (skipn (S (S (S (S (S (S (S (S O)))))))) new0) (N.div2 mask0) f))
+   | _ :: _ ->
+     app
+       (if N.odd mask0
+        then firstn (S (S (S (S (S (S (S (S O)))))))) new0
+        else firstn (S (S (S (S (S (S (S (S O)))))))) old)
+       (crash_mix (skipn (S (S (S (S (S (S (S (S O)))))))) old)
+         (skipn (S (S (S (S (S (S (S (S O)))))))) new0) (N.div2 mask0) f))
+
+(** val pad_to : nat -> bytes -> bytes **)
+
+let pad_to n0 bs =
+  app bs (zeros (sub n0 (length bs)))
+
+(** val show_dump : dump_res -> str **)
+
+let show_dump r =
+  let show_es = fun es ->
+    join
+      (map (fun e ->
+        app (n_to_hex (fst e)) (colon :: (bytes_to_hex (snd e)))) es)
+  in
+  (match r with
+   | DumpOk es -> app s_ok (colon :: (show_es es))
+   | DumpErr es -> app s_err (colon :: (show_es es)))
+
+(** val chr : n -> str -> bool **)
+
+let chr c s =
+  str_eqb s (c :: [])
+
+(** val pre_of : sst -> waction list -> bytes **)
+
+let pre_of st = function
+| [] -> st.s_pre
+| _ :: _ -> st.s_file
+
+(** val run_ops : nat -> sst -> str list -> str list -> str list **)
+
+let rec run_ops fuel st ts acc =
+  match fuel with
+  | O -> rev_append acc []
+  | S fuel' ->
+    (match ts with
+     | [] -> rev_append acc []
+     | op :: r ->
+       if chr (Npos (XI (XO (XO (XO (XO (XO XH))))))) op
+       then (match r with
+             | [] -> rev_append (s_bad :: acc) []
+             | k :: r1 ->
+               (match hex_to_N k with
+                | Some k0 ->
+                  (match parse_entries (N.to_nat k0) r1 with
+                   | Some p ->
+                     let (es, r2) = p in
+                     (match st.s_mode with
+                      | MTail ->
+                        let (p0, acts) = append st.s_w es FNone in
+                        let (res, w') = p0 in
+                        let f' = apply_wactions st.s_file acts in
+                        run_ops fuel' { s_info = st.s_info; s_file = f';
+                          s_w = w'; s_mode = MTail; s_pre =
+                          (pre_of st acts) } r2 ((show_wres res) :: acc)
+                      | _ -> run_ops fuel' st r2 (s_bad :: acc))
+                   | None -> rev_append (s_bad :: acc) [])
+                | None -> rev_append (s_bad :: acc) []))
+       else if chr (Npos (XI (XI (XO (XO (XI (XO XH))))))) op
+            then (match st.s_mode with
+                  | MTail ->
+                    let (p, acts) = force_seal st.s_w FNone in
+                    let (res, w') = p in
+                    let f' = apply_wactions st.s_file acts in
+                    let o =
+                      match res with
+                      | WOk -> app s_ok (colon :: (n_to_hex w'.w_index_start))
+                      | _ -> show_wres res
+                    in
+                    run_ops fuel' { s_info = st.s_info; s_file = f'; s_w =
+                      w'; s_mode = MTail; s_pre = (pre_of st acts) } r
+                      (o :: acc)
+                  | _ -> run_ops fuel' st r (s_bad :: acc))
+            else if chr (Npos (XI (XO (XO (XO (XI (XO XH))))))) op
+                 then let o =
+                        if sealed st.s_w
+                        then app ((Npos (XI (XO (XO (XO (XI
+                               XH)))))) :: (colon :: []))
+                               (n_to_hex st.s_w.w_index_start)
+                        else (Npos (XO (XO (XO (XO (XI XH)))))) :: []
+                      in
+                      run_ops fuel' st r (o :: acc)
+                 else if chr (Npos (XO (XO (XI (XI (XO (XO XH))))))) op
+                      then run_ops fuel' st r
+                             ((n_to_hex st.s_w.w_commit_idx) :: acc)
+                      else if chr (Npos (XI (XI (XI (XO (XO (XO XH))))))) op
+                           then (match r with
+                                 | [] -> rev_append (s_bad :: acc) []
+                                 | i :: r1 ->
+                                   (match hex_to_N i with
+                                    | Some i0 ->
+                                      let o =
+                                        match st.s_mode with
+                                        | MTail ->
+                                          show_rres
+                                            (tail_get st.s_w st.s_file i0)
+                                        | MSealed info ->
+                                          show_rres
+                                            (sealed_get info st.s_file i0)
+                                        | MNone -> s_bad
+                                      in
+                                      run_ops fuel' st r1 (o :: acc)
+                                    | None -> rev_append (s_bad :: acc) []))
+                           else if chr (Npos (XO (XI (XO (XO (XI (XO
+                                     XH))))))) op
+                                then (match recover_tail st.s_info st.s_file with
+                                      | Some p ->
+                                        let (w', acts) = p in
+                                        run_ops fuel' { s_info = st.s_info;
+                                          s_file =
+                                          (apply_wactions st.s_file acts);
+                                          s_w = w'; s_mode = MTail; s_pre =
+                                          (pre_of st acts) } r (s_ok :: acc)
+                                      | None ->
+                                        run_ops fuel' { s_info = st.s_info;
+                                          s_file = st.s_file; s_w = st.s_w;
+                                          s_mode = MNone; s_pre = st.s_pre }
+                                          r (s_corrupt :: acc))
+                                else if chr (Npos (XI (XI (XO (XO (XO (XO
+                                          XH))))))) op
+                                     then (match r with
+                                           | [] ->
+                                             rev_append (s_bad :: acc) []
+                                           | m :: r1 ->
+                                             (match hex_to_N m with
+                                              | Some m0 ->
+                                                let n0 =
+                                                  Nat.max (length st.s_pre)
+                                                    (length st.s_file)
+                                                in
+                                                let img =
+                                                  crash_mix
+                                                    (pad_to n0 st.s_pre)
+                                                    (pad_to n0 st.s_file) m0
+                                                    (S
+                                                    (Nat.div n0 (S (S (S (S
+                                                      (S (S (S (S O))))))))))
+                                                in
+                                                run_ops fuel' { s_info =
+                                                  st.s_info; s_file = img;
+                                                  s_w = st.s_w; s_mode =
+                                                  MNone; s_pre = img }
+                                                  (((Npos (XO (XI (XO (XO (XI
+                                                  (XO XH))))))) :: []) :: r1)
+                                                  acc
+                                              | None ->
+                                                rev_append (s_bad :: acc) []))
+                                     else if chr (Npos (XI (XI (XI (XI (XO
+                                               (XO XH))))))) op
+                                          then (match r with
+                                                | [] ->
+                                                  rev_append (s_bad :: acc) []
+                                                | mn :: l ->
+                                                  (match l with
+                                                   | [] ->
+                                                     rev_append
+                                                       (s_bad :: acc) []
+                                                   | mx :: r1 ->
+                                                     (match hex_to_N mn with
+                                                      | Some mn0 ->
+                                                        (match hex_to_N mx with
+                                                         | Some mx0 ->
+                                                           let info =
+                                                             { si_id =
+                                                             st.s_info.si_id;
+                                                             si_base =
+                                                             st.s_info.si_base;
+                                                             si_min = mn0;
+                                                             si_max = mx0;
+                                                             si_codec =
+                                                             st.s_info.si_codec;
+                                                             si_index_start =
+                                                             st.s_w.w_index_start;
+                                                             si_sealed =
+                                                             true;
+                                                             si_size_limit =
+                                                             st.s_info.si_size_limit }
+                                                           in
+                                                           if open_sealed
+                                                                info st.s_file
+                                                           then run_ops fuel'
+                                                                  { s_info =
+                                                                  st.s_info;
+                                                                  s_file =
+                                                                  st.s_file;
+                                                                  s_w =
+                                                                  st.s_w;
+                                                                  s_mode =
+                                                                  (MSealed
+                                                                  info);
+                                                                  s_pre =
+                                                                  st.s_pre }
+                                                                  r1
+                                                                  (s_ok :: acc)
+                                                           else run_ops fuel'
+                                                                  { s_info =
+                                                                  st.s_info;
+                                                                  s_file =
+                                                                  st.s_file;
+                                                                  s_w =
+                                                                  st.s_w;
+                                                                  s_mode =
+                                                                  MNone;
+                                                                  s_pre =
+                                                                  st.s_pre }
+                                                                  r1
+                                                                  (s_corrupt :: acc)
+                                                         | None ->
+                                                           rev_append
+                                                             (s_bad :: acc) [])
+                                                      | None ->
+                                                        rev_append
+                                                          (s_bad :: acc) [])))
+                                          else if chr (Npos (XO (XO (XO (XI
+                                                    (XI (XO XH))))))) op
+                                               then (match r with
+                                                     | [] ->
+                                                       rev_append
+                                                         (s_bad :: acc) []
+                                                     | o :: l ->
+                                                       (match l with
+                                                        | [] ->
+                                                          rev_append
+                                                            (s_bad :: acc) []
+                                                        | h :: r1 ->
+                                                          (match hex_to_N o with
+                                                           | Some o0 ->
+                                                             (match hex_to_bytes
+                                                                    h with
+                                                              | Some h0 ->
+                                                                run_ops fuel'
+                                                                  { s_info =
+                                                                  st.s_info;
+                                                                  s_file =
+                                                                  (overwrite
+                                                                    st.s_file
+                                                                    (N.to_nat
+                                                                    o0) h0);
+                                                                  s_w =
+                                                                  st.s_w;
+                                                                  s_mode =
+                                                                  st.s_mode;
+                                                                  s_pre =
+                                                                  st.s_pre }
+                                                                  r1 acc
+                                                              | None ->
+                                                                rev_append
+                                                                  (s_bad :: acc)
+                                                                  [])
+                                                           | None ->
+                                                             rev_append
+                                                               (s_bad :: acc)
+                                                               [])))
+                                               else if chr (Npos (XO (XO (XI
+                                                         (XO (XI (XO
+                                                         XH))))))) op
+                                                    then (match r with
+                                                          | [] ->
+                                                            rev_append
+                                                              (s_bad :: acc)
+                                                              []
+                                                          | n0 :: r1 ->
+                                                            (match hex_to_N n0 with
+                                                             | Some n1 ->
+                                                               run_ops fuel'
+                                                                 { s_info =
+                                                                 st.s_info;
+                                                                 s_file =
+                                                                 (firstn
+                                                                   (N.to_nat
+                                                                    n1)
+                                                                   st.s_file);
+                                                                 s_w =
+                                                                 st.s_w;
+                                                                 s_mode =
+                                                                 st.s_mode;
+                                                                 s_pre =
+                                                                 st.s_pre }
+                                                                 r1 acc
+                                                             | None ->
+                                                               rev_append
+                                                                 (s_bad :: acc)
+                                                                 []))
+                                                    else if chr (Npos (XO (XI
+                                                              (XI (XO (XO (XO
+                                                              XH))))))) op
+                                                         then run_ops fuel'
+                                                                st r
+                                                                ((bytes_to_hex
+                                                                   (strip_trailing_zeros
+                                                                    st.s_file)) :: acc)
+                                                         else if chr (Npos
+                                                                   (XO (XO
+                                                                   (XI (XO
+                                                                   (XO (XO
+                                                                   XH)))))))
+                                                                   op
+                                                              then (match r with
+                                                                    | [] ->
+                                                                    rev_append
+                                                                    (s_bad :: acc)
+                                                                    []
+                                                                    | a :: l ->
+                                                                    (match l with
+                                                                    | [] ->
+                                                                    rev_append
+                                                                    (s_bad :: acc)
+                                                                    []
+                                                                    | b :: r1 ->
+                                                                    (match 
+                                                                    hex_to_N a with
+                                                                    | Some a0 ->
+                                                                    (match 
+                                                                    hex_to_N b with
+                                                                    | Some b0 ->
+                                                                    run_ops
+                                                                    fuel' st
+                                                                    r1
+                                                                    ((show_dump
+                                                                    (dump_segment
+                                                                    st.s_file
+                                                                    st.s_info.si_base
+                                                                    a0 b0)) :: acc)
+                                                                    | None ->
+                                                                    rev_append
+                                                                    (s_bad :: acc)
+                                                                    [])
+                                                                    | None ->
+                                                                    rev_append
+                                                                    (s_bad :: acc)
+                                                                    [])))
+                                                              else rev_append
+                                                                    (s_bad :: acc)
+                                                                    [])
+
+(** val run_seg : str list -> str **)
+
+let run_seg = function
+| [] -> s_bad
+| b :: l0 ->
+  (match l0 with
+   | [] -> s_bad
+   | i :: l1 ->
+     (match l1 with
+      | [] -> s_bad
+      | c :: l2 ->
+        (match l2 with
+         | [] -> s_bad
+         | l :: l3 ->
+           (match l3 with
+            | [] -> s_bad
+            | fsz :: ops ->
+              (match hex_to_N b with
+               | Some b0 ->
+                 (match hex_to_N i with
+                  | Some i0 ->
+                    (match hex_to_N c with
+                     | Some c0 ->
+                       (match hex_to_N l with
+                        | Some l4 ->
+                          (match hex_to_N fsz with
+                           | Some fsz0 ->
+                             let info = { si_id = i0; si_base = b0; si_min =
+                               b0; si_max = N0; si_codec = c0;
+                               si_index_start = N0; si_sealed = false;
+                               si_size_limit = l4 }
+                             in
+                             let f0 = zeros (N.to_nat fsz0) in
+                             join
+                               (run_ops (S (length ops)) { s_info = info;
+                                 s_file = f0; s_w = (init_empty info);
+                                 s_mode = MTail; s_pre = f0 } ops [])
+                           | None -> s_bad)
+                        | None -> s_bad)
+                     | None -> s_bad)
+                  | None -> s_bad)
+               | None -> s_bad)))))
+
 (** val k_enc : str **)
 
 let k_enc =
@@ -1421,6 +2742,12 @@ let k_dec =
   (Npos (XO (XO (XI (XO (XO (XI XH))))))) :: ((Npos (XI (XO (XI (XO (XO (XI
     XH))))))) :: ((Npos (XI (XI (XO (XO (XO (XI XH))))))) :: []))
 
+(** val k_seg : str **)
+
+let k_seg =
+  (Npos (XI (XI (XO (XO (XI (XI XH))))))) :: ((Npos (XI (XO (XI (XO (XO (XI
+    XH))))))) :: ((Npos (XI (XI (XI (XO (XO (XI XH))))))) :: []))
+
 (** val run_line : str -> str **)
 
 let run_line line =
@@ -1429,4 +2756,6 @@ let run_line line =
   | cmd :: args ->
     if str_eqb cmd k_enc
     then run_enc args
-    else if str_eqb cmd k_dec then run_dec args else s_bad
+    else if str_eqb cmd k_dec
+         then run_dec args
+         else if str_eqb cmd k_seg then run_seg args else s_bad
